@@ -3750,10 +3750,7 @@ func (a *Association) resetStreamsIfAny(resetRequest *paramOutgoingResetRequest)
 			if !ok {
 				continue
 			}
-			a.lock.Unlock()
 			s.onInboundStreamReset()
-			vfYield(a, vfSiteResetRelease)
-			a.lock.Lock()
 			a.log.Debugf("[%s] deleting stream %d", a.name, id)
 			delete(a.streams, s.streamIdentifier)
 		}
